@@ -197,6 +197,30 @@ def check_classifiers(rep, prog):
               "UserHeader.isServiceable", "isServiceable", bad)
 
 
+def check_lookups_recorded(rep, cli, by_attr, rule):
+    """look-up ids are stored in the Config before their mode runs, and dispatch implies the stored id is truthy"""
+    # look-up atoms are set before their mode runs, from the matching option
+    for attr, dest_opt, fn in (("pelID", "-i", "parsePelFromID"), ("bmcID", "--bmc-id", "parsePelFromBmcID"),
+                               ("plid", "--plid", "parsePelFromPLID"), ("src", "--src", "parsePelFromSRCID")):
+        dest = cli.options.get(dest_opt)
+        sts = by_attr.get(attr, [])
+        calls = [m for m in cli.mode_calls() if m[0] == fn and dest in cli.atoms(m[2])]
+        ok = dest is not None and len(sts) == 1 and sts[0][0] == cli.arg(dest) and dest in cli.atoms(sts[0][1]) and \
+            calls and all(sts[0][2].seq < c[3].seq and c[1][-1] == cli.config for c in calls)
+        rep.check(ok, rule, "%s stores its value in Config.%s before %s(…, config) runs" % (dest_opt, attr, fn), "main",
+                  "config.%s = args.%s" % (attr, dest), "look-up %s does not record its id in Config.%s before running %s with that "
+                  "config: considerPEL cannot recognise the look-up" % (dest_opt, attr, fn))
+        # considerPEL recognises a look-up by the truth value of the stored id: whenever the mode is dispatched, that value
+        # must be true (an id that is falsy, e.g. 0 of an integer-typed option, would be filtered like an ordinary listing)
+        if ok:
+            # (a call dispatched for another option, under 'not this option', is that option's business)
+            okt = all(pelx.implies(c[2], sts[0][0])[0] for c in calls if not pelx.implies(c[2], pelx.not_(sts[0][0]))[0])
+            rep.check(okt, rule, "%s: whenever %s is dispatched the stored id is truthy (the filter sees a look-up)" % (dest_opt, fn),
+                      "main", "if args.%s:" % dest, "look-up %s is dispatched under a condition that does not make Config.%s truthy (e.g. "
+                      "'is not None' with an id of 0): considerPEL treats that look-up as an ordinary selection and hidden / "
+                      "non-serviceable PELs are not found" % (dest_opt, attr))
+
+
 def check_options(rep, prog):
     cli = Cli(prog)
     want = {"-E": ("every_pel", True), "-s": ("serviceable", True), "-N": ("non_serviceable", True), "-H": ("hidden", True),
@@ -247,17 +271,7 @@ def check_options(rep, prog):
     chl = list_items(I, ch) if ch is not None else None
     rep.check(chl is not None and [i[1] for i in chl] == [Const(k) for k in spec_table("severityGroupValues")], "C07.R4.options",
               "-S accepts exactly the seven documented group names", "main", "choices=...", "choices of -S differ from the documented groups")
-    # look-up atoms are set before their mode runs, from the matching option
-    for attr, dest_opt, fn in (("pelID", "-i", "parsePelFromID"), ("bmcID", "--bmc-id", "parsePelFromBmcID"),
-                               ("plid", "--plid", "parsePelFromPLID"), ("src", "--src", "parsePelFromSRCID")):
-        dest = cli.options.get(dest_opt)
-        sts = by_attr.get(attr, [])
-        calls = [m for m in cli.mode_calls() if m[0] == fn and dest in cli.atoms(m[2])]
-        ok = dest is not None and len(sts) == 1 and sts[0][0] == cli.arg(dest) and dest in cli.atoms(sts[0][1]) and \
-            calls and all(sts[0][2].seq < c[3].seq and c[1][-1] == cli.config for c in calls)
-        rep.check(ok, "C07.R4.options", "%s stores its value in Config.%s before %s(…, config) runs" % (dest_opt, attr, fn), "main",
-                  "config.%s = args.%s" % (attr, dest), "look-up %s does not record its id in Config.%s before running %s with that "
-                  "config: considerPEL cannot recognise the look-up" % (dest_opt, attr, fn))
+    check_lookups_recorded(rep, cli, by_attr, "C07.R4.options")
     # the terminating-severity constant
     sv = I.get_attr(I.get_attr(I.global_value("pel.peltool.pel_types", "SeverityValues"), "critSysTermSeverity"), "value")
     rep.check(sv == Const(0x51), "C07.R2.atoms", "terminating severity constant = 0x51", "pel_types.SeverityValues", "critSysTermSeverity",
